@@ -146,6 +146,28 @@ Theorem C08_cleanup_object : forall n o,
 Proof. intros n o r. destruct (object_removed_spec n o) as (_ & _ & _ & _ & _ & H6 & _ & _ & H9 & H10). auto. Qed.
 Print Assumptions C08_cleanup_object.
 
+(* The removal notices are sent per (signal, subscriber), each on its own: while some peers u cannot be reached
+   (half-way through disconnecting: still listed as subscribers, send_message raises) the tables end up exactly
+   as without failures, nothing goes to an unreachable peer, and EVERY OTHER peer gets exactly the notices it
+   gets when everybody is reachable (same notices, same order); in particular every reachable remote
+   subscriber of a signal of the removed object gets its notice. *)
+Theorem C08_notice_failure_isolated : forall u n o,
+  fst (object_removed_u u n o) = fst (object_removed n o) /\
+  (forall x, smem str_eqb x u = true -> msgs_to x (snd (object_removed_u u n o)) = []) /\
+  (forall x, smem str_eqb x u = false -> msgs_to x (snd (object_removed_u u n o)) = msgs_to x (snd (object_removed n o))) /\
+  object_removed_u [] n o = object_removed n o.
+Proof.
+  intros u n o. destruct (notice_failure_isolated u n o) as (H1 & H2 & H3).
+  split; [exact H1|]. split; [exact H2|]. split; [exact H3 | apply object_removed_u_nil].
+Qed.
+Print Assumptions C08_notice_failure_isolated.
+
+Theorem C08_notice_sent_when_reachable : forall u n o x s,
+  nodot o = true -> Rk n x o s = true -> can_send n x = true -> smem str_eqb x u = false ->
+  In (MRemoved o s) (msgs_to x (snd (object_removed_u u (w_objs (sdel str_eqb o (n_objs n)) n) o))).
+Proof. exact notice_sent_when_reachable. Qed.
+Print Assumptions C08_notice_sent_when_reachable.
+
 (* no subscribe call blocks forever: a call blocked in wait() stays accounted for (blocked on a
    registered request, or its outcome is ready) through every step, including the loss of the peer; when
    nothing is in flight no request is registered any more, so the outcome is there and wait() returns *)
